@@ -7,6 +7,7 @@
   Only property theorems live here; lemmas are in PCV/Proofs/HyraxTranscript.lean, HyraxHistory.lean.
 -/
 import PCV.Proofs.HyraxHistory
+import PCV.Proofs.HyraxTranscriptEx
 import PCV.Props.C02_Hyrax
 
 set_option linter.unusedSectionVars false
@@ -231,5 +232,86 @@ theorem hyrax_displaced_rejected (ro : RO F) (ks : List F) (hh k0 : F) (p : MLPo
     · exact hz h0
     · exact hc (sub_eq_zero.1 h0)
   · exact hc (mul_left_cancel₀ hz h3)
+
+/-! ### non-vacuity (K = ZMod 101; data in `PCV.Proofs.HyraxTranscriptEx`) -/
+
+/-- one `open` of two honest items and the `check` of its proofs: accepted, same 14 events -/
+example : ∃ πs rest s', openT TEx.ro ([3, 5] : List K) 7 (toItems TEx.trips) [6, 17] TEx.draws [] = .ok (πs, rest, s') ∧
+    checkT TEx.ro [3, 5] 7 ((toItems TEx.trips).map (·.2)) [6, 17]
+      ((TEx.trips.map (·.1.1.poly)).map fun p => mleEval p.evals [6, 17]) πs [] = .ok (true, s') ∧
+    s'.length = 14 := by
+  have hok : (match openT TEx.ro ([3, 5] : List K) 7 (toItems TEx.trips) [6, 17] TEx.draws [] with
+      | .ok _ => true | .error _ => false) = true := by decide
+  cases h : openT TEx.ro ([3, 5] : List K) 7 (toItems TEx.trips) [6, 17] TEx.draws [] with
+  | error e => simp [h] at hok
+  | ok r =>
+    obtain ⟨πs, rest, s'⟩ := r
+    refine ⟨πs, rest, s', rfl, hyrax_open_check_lockstep _ _ _ _ _ _ (honest_toItems _ _ _ TEx.good) _ _ _ _ _ h, ?_⟩
+    have := (hyrax_open_schedule _ _ _ _ _ _ _ _ _ _ h).2.1
+    simpa [toItems, TEx.trips, TEx.polys, TEx.sts, TEx.comms, TraitDefault.polyStComm] using this
+/-- the honest-items hypothesis on the example -/
+example : List.Forall₂ (HonestItem ([3, 5] : List K) 7) (toItems TEx.trips) (TEx.trips.map (·.1.1.poly)) :=
+  honest_toItems _ _ _ TEx.good
+
+/-- a three-operation history (`open`, `batch_open` over two point labels, `open_combinations`) on
+one sponge: the prover appends 42 events and uses 30 draws … -/
+example : TEx.proverOut = .ok (TEx.histProofs, (TEx.histLog, TEx.draws.drop 30)) ∧ TEx.histLog.length = 42 :=
+  ⟨TEx.prover_eq, TEx.histLog_length⟩
+/-- … and the verifier accepts everything and ends with the same 42 events -/
+example : TrHistory.verifierRun TEx.ltVec (fun (c : LComm K) => c.label) (checkF TEx.ro [3, 5] 7)
+    TEx.comms TEx.vops TEx.histProofs [] = .ok (true, TEx.histLog) := TEx.verifier_eq
+/-- the hypotheses of `hyrax_history_lockstep` on that history: order, honest triples, the verifier's
+commitment list, and the three operations' claims are the true ones -/
+example : QS.StrictTotal TEx.ltVec ∧ (∀ a, TEx.ltVec a a = false) ∧
+    GoodTrips ([3, 5] : List K) 7 (polyStComm TEx.polys TEx.sts TEx.comms) :=
+  ⟨TEx.ltVec_strict, TEx.ltVec_irrefl, TEx.good⟩
+example : List.Forall₂ (TrHistory.Truthful TEx.ltVec (fun (p : LPoly K) => p.label) evalLP
+    (GoodTrips ([3, 5] : List K) 7) TEx.polys TEx.sts TEx.comms) TEx.ops TEx.vops := by
+  refine .cons ?_ (.cons ?_ (.cons ?_ .nil))
+  · refine ⟨fun t ht => TEx.good t (List.mem_of_mem_take ht), by decide, rfl, by decide⟩
+  · refine ⟨rfl, ?_⟩
+    have key : ∀ g ∈ TraitDefault.groups (TraitDefault.querySet TEx.ltVec
+          [([97], ([120], [6, 17])), ([98], ([120], [6, 17])), ([98], ([121], [2, 9]))]), ∀ l ∈ g.2.2,
+        (Marlin.lookupLast (fun (t : (LPoly K × State K) × LComm K) => t.1.1.label) l
+          (polyStComm TEx.polys TEx.sts TEx.comms)).all (fun t =>
+            decide (QS.lastWith (l, g.2.1)
+              [((([97] : Label), ([6, 17] : List K)), (41 : K)), (([98], [6, 17]), 43), (([98], [2, 9]), 20)]
+              = some (evalLP t.1.1 g.2.1))) = true := by decide
+    intro g hg l hl t ht
+    have := key g hg l hl
+    rw [ht] at this
+    simpa using this
+  · refine ⟨rfl, rfl, ?_, by decide, ?_⟩
+    · intro q hq q' hq' _
+      simp only [List.mem_cons, List.not_mem_nil, or_false] at hq hq'
+      rw [hq, hq']
+    intro q hq lc hlc
+    simp only [List.mem_cons, List.not_mem_nil, or_false] at hq
+    subst hq
+    have : lc = ⟨[101], [(2, .poly [97]), (5, .poly [98]), (1, .one)]⟩ := by
+      have h' : TraitDefault.lcGet [(⟨[101], [(2, .poly [97]), (5, .poly [98]), (1, .one)]⟩ : LC.LinComb K)] [101]
+          = some ⟨[101], [(2, .poly [97]), (5, .poly [98]), (1, .one)]⟩ := by decide
+      rw [h'] at hlc
+      exact (Option.some.inj hlc).symm
+    subst this
+    decide
+
+/-- a displaced proof: the first proof of the history (made at the empty history) verified after
+one other event is rejected; the hypotheses of `hyrax_displaced_rejected` hold (`com_eval = 29 ≠ 0`,
+the two challenges are `45` and `52`), while at its own position it is accepted -/
+example : openT TEx.ro ([3, 5] : List K) 7 (toItems (TEx.trips.take 1)) [6, 17] TEx.draws []
+      = .ok ([⟨29, 16, 54, [16, 8], 29, 58, 1⟩], TEx.draws.drop 5,
+          absorbIter [] [3, 5] 7 [88, 65] [6, 17] 29 16 54 ++ [.squeezeField 1]) ∧
+    key0 ([3, 5] : List K) = some 3 ∧
+    TEx.ro.fe (absorbIter [.squeezeField 1] [3, 5] 7 [88, 65] [6, 17] 29 16 54) 0
+      ≠ TEx.ro.fe (absorbIter [] [3, 5] 7 [88, 65] [6, 17] 29 16 54) 0 ∧ (29 : K) ≠ 0 ∧
+    (checkT TEx.ro ([3, 5] : List K) 7 [[88, 65]] [6, 17] [41] [⟨29, 16, 54, [16, 8], 29, 58, 1⟩]
+      [.squeezeField 1]).map (·.1) = .ok false ∧
+    (checkT TEx.ro ([3, 5] : List K) 7 [[88, 65]] [6, 17] [41] [⟨29, 16, 54, [16, 8], 29, 58, 1⟩]
+      []).map (·.1) = .ok true := by decide
+/-- a proof rejected at the evaluation commitment leaves the verifier's sponge untouched (the
+verifier then lags the prover by the whole opening) -/
+example : checkT TEx.ro ([3, 5] : List K) 7 [[88, 65]] [6, 17] [42] [⟨29, 16, 54, [16, 8], 29, 58, 1⟩] []
+    = .ok (false, []) := by decide
 
 end PCV.C11
